@@ -27,6 +27,7 @@ EXPLANATION = (
     "to the list the block iterates over; every Network.connect of a node-set adder that declares `bandwidth` passes it; "
     "R20.6 each episode is built from a freshly parsed / deep-copied scenario dict (the loaders consume theirs); R20.7 every "
     "resolved listening port reaches the append in _set_software_listen_on_ports (number or name), and no scenario mapping is read "
+    "R20.8 the numeric settings this property depends on are never tested by truthiness (`x or default`, `if x:`), because 0 is a legal value for them. "
     "by position (`list(m.values())[i]`). NOT decided: "
     "inventory equality for arbitrary scenario files and behavioural identity under re-serialisation."
 )
@@ -473,3 +474,5 @@ def check(ctx: Ctx) -> None:
     r20_5(ctx)
     r20_6(ctx)
     r20_7(ctx)
+    from .common import falsy_numeric
+    falsy_numeric(ctx, "R20.8", r"duration|bandwidth|position|metric|weight|num_|probability|variance|frequency|start_step", "declared numeric options")
